@@ -1515,6 +1515,63 @@ class EnforceDivisionsTask(Spec):
         return {"n": n, "index": index}
 
 
+class LengthsLayer(Spec):
+    """Lengths._layer (the per-partition row counts behind len()): one `len` task per input partition, and the output
+    is the tuple of ALL of them in partition order - no partition is skipped or counted twice."""
+
+    file, qualname, props = "dask_expr/_expr.py", "Lengths._layer", ["C06", "C09"]
+
+    def make_inputs(self, ex, sym, fr):
+        n = sym.int("n_in", lo=0)
+        frame = _dep("self.frame", n)
+        s = Obj("self", {"frame": frame, "_name": NameStr("", "self")}, cls=("Lengths", "Expr"))
+        return {"self": s, "n_in": n}
+
+    def ensures(self):
+        def names(c, e):
+            own = c.attr(e["self"], "_name")
+            part = NameStr("part-" + own.prefix, own.atom, own.suffix) if isinstance(own, NameStr) else "part-" + own
+            return own, part, c.attr(e["self"], "frame._name")
+
+        def counts(c, e, r):
+            own, part, fname = names(c, e)
+            return c.forall(0, e["n_in"], lambda i: c.holds_at(r, (part, i), lambda v: len(v) == 2 and c.And(c.eq(v[0], c.fn("builtin:len")), c.eq(v[1], (fname, i)))))
+
+        def output(c, e, r):
+            own, part, fname = names(c, e)
+            return c.holds_at(r, (own, 0), lambda v: len(v) == 2 and c.And(c.eq(v[0], c.fn("builtin:tuple")), c.eq(c.len(v[1]), e["n_in"]), c.forall(0, e["n_in"], lambda i: c.eq(c.at(v[1], i), (part, i)))))
+
+        def k3(c, e, r):
+            own, part, fname = names(c, e)
+            is_ = lambda a, b: (c.eq(a, b) is True) if c.symbolic else a == b
+            return c.forall_entries(r, lambda k, v: len(k) == 2 and (c.eq(k[1], 0) if is_(k[0], own) else c.And(c.eq(k[0], part), k[1] >= 0, k[1] < e["n_in"])))
+
+        return {"one-len-task-per-input-partition": counts, "output-is-the-tuple-of-all-counts-in-order": output, "K3-only-own-keys": k3}
+
+    def concrete_globals(self):
+        import builtins
+
+        return {"builtin:len": builtins.len, "builtin:tuple": builtins.tuple}
+
+    def concrete_inputs(self):
+        for n in (1, 2, 5):
+            yield {"n": n}
+
+    def concrete_env(self, inputs):
+        return None
+
+    def run_concrete(self, inputs):
+        from dask_expr._expr import Lengths
+
+        fr = stub_frame(npartitions=inputs["n"])
+        obj = Lengths(fr)
+        return {"self": obj, "n_in": inputs["n"]}, obj._layer()
+
+    def inputs_from_model(self, model, sz, sym):
+        n = sym.read_int(model, "n_in")
+        return None if n is None or not (1 <= n <= 60) else {"n": n}
+
+
 def _scenarios():
     out = []
     for how in ("inner", "left", "right", "leftsemi"):
@@ -1528,4 +1585,4 @@ def _scenarios():
     return out
 
 
-SPECS = [CumulativeFinalizeLayer(), FromGraphLayer(), MoreNSplits(), MoreDivisions(), MoreLayer(), SizeLayer(), SimpleShuffleLayer(), DiskShuffleLayer(), TreeReduceLayer(), TaskShuffleTail(), BroadcastDep(), BlockwiseArg(), BlockwiseTask(), EnforceDivisionsTask(), ExprLayer()] + _scenarios()
+SPECS = [CumulativeFinalizeLayer(), FromGraphLayer(), MoreNSplits(), MoreDivisions(), MoreLayer(), SizeLayer(), SimpleShuffleLayer(), DiskShuffleLayer(), TreeReduceLayer(), TaskShuffleTail(), BroadcastDep(), BlockwiseArg(), BlockwiseTask(), EnforceDivisionsTask(), ExprLayer(), LengthsLayer()] + _scenarios()
